@@ -63,7 +63,7 @@ def cases(draw, max_n=70):
                 cfg["kw"][key] = min(cfg["kw"][key], draw(st.integers(2, 8)))
         if cfg.get("cls") == "MACD" and cfg["kw"]["fast_period"] >= cfg["kw"]["slow_period"]:
             cfg["kw"]["slow_period"] = cfg["kw"]["fast_period"] + 1
-        members.append({"cfg": cfg, "tf": draw(st.sampled_from(MEMBER_TFS[hx_tf])), "form": draw(st.sampled_from(("object", "dict", "settings"))), "late": draw(st.integers(0, 4)) == 0})
+        members.append({"cfg": cfg, "tf": draw(st.sampled_from(MEMBER_TFS[hx_tf])), "form": draw(st.sampled_from(("object", "dict", "settings", "dict-callable"))), "late": draw(st.integers(0, 4)) == 0})
     n = draw(st.integers(0, max_n))
     step = draw(st.sampled_from((60, 60, 150, 300)))
     pattern = draw(st.sampled_from(("regular", "regular", "gappy", "jitter")))
@@ -83,9 +83,14 @@ def _as_form(member):
     extra = {"timeframe": _tf_arg(tf)} if tf else {}
     if form == "object":
         return build_indicator(cfg, **extra)
-    if form == "dict":
+    if form in ("dict", "dict-callable"):
         if "analysis" in cfg:  # analysis arguments go under "args" ("indicator" as a flat key would name a class)
-            return dict({"analysis": cfg["analysis"], "args": dict(cfg["kw"])}, **extra)
+            fn = cfg["analysis"]
+            if form == "dict-callable":  # the documented third spelling: the function object itself
+                from hexital.analysis import MOVEMENT_MAP, PATTERN_MAP
+
+                fn = {**PATTERN_MAP, **MOVEMENT_MAP}[fn]
+            return dict({"analysis": fn, "args": dict(cfg["kw"])}, **extra)
         return dict({"indicator": _map_key(cfg)}, **cfg["kw"], **extra)
     return build_indicator(cfg, **extra).settings
 
